@@ -125,12 +125,34 @@ def run(prop, tier, replay=None):
     rng = random.Random(seed() * 48611 + 6)
     rep.check_proofs()
     run_core(rep, prop, tier, rng)
+    reserved_word_witness(rep)
     rep.cov["rule"] = ("flat CAN schemas (1..3 messages x 1..8 signals: u/i 1..64 bits, f32, f64, enums; any order; <= 64 bits) "
                        "generated with fcp_can_c from /repo's templates, compiled with gcc, run on boundary/random values; "
                        "distinct by schema text; every (message, value) is one evaluation")
     rep.assumptions += ["floats are compared by value after decode (the runtime's x*1.0f+0.0f turns -0.0 into +0.0)",
                         "unaligned uint64_t store into CanFrame.data is UB in ISO C and relied upon (x86-64)"]
     return rep.finish()
+
+
+def reserved_word_witness(rep):
+    """recorded finding reserved-word-identifiers on its witness (silent once the generated C compiles)"""
+    from .common import load_findings
+    if not any(f.get("property") == "C06" and f.get("id") == "reserved-word-identifiers" and f.get("status") == "open"
+               for f in load_findings()):
+        return
+    text = 'version: "3"\n\nstruct S {\n    register @ 0: u8,\n}\nimpl can for S {\n    id: 10,\n    device: "ecu",\n}\n'
+    g = run_cases("harness.cbuild", "w_gen_c", [{"text": text}], timeout_s=60)[0]
+    if "ok" not in g or "ecu_can.c" not in g["ok"]["files"]:
+        return
+    d_, exe, out = cbuild.build(g["ok"]["files"], "#include \"ecu_can.h\"\nint main(void) { return 0; }\n")
+    try:
+        rep.hist("reserved_word_witness", "compiles" if exe else "does not compile")
+        if exe is None:
+            rep.known_finding("a field named like a C reserved word is accepted by parser and verifier and written verbatim: the "
+                              "generated C does not compile (witness: struct S { register @0: u8 } bound to CAN)")
+    finally:
+        if d_:
+            cbuild.cleanup(d_)
 
 
 def run_core(rep, prop, tier, rng):
